@@ -1172,6 +1172,85 @@ func TestC16(t *testing.T) {
 			e.Violation(map[string]any{"what": fmt.Sprintf("end to end: request naming %q (bypass=%v) -> %s (local cluster saw it: %v), expected %s", c.name, c.bypass, dec, saw, c.want), "ops": []string{op}})
 		}
 	}
+	// the SAME history-blob bytes passing through this one proxy again and again in different roles — in a response on its
+	// way to the remote side, in an ordinary request, in a request with the bypass header — in every order: each request is
+	// judged on what ITS bytes name (after translation, unless switched off), whatever passed before
+	{
+		const importWf = "/temporal.server.api.adminservice.v1.AdminService/ImportWorkflowExecution"
+		const rawHist = "/temporal.server.api.adminservice.v1.AdminService/GetWorkflowExecutionRawHistoryV2"
+		mkBlob := func(name string) *commonpb.DataBlob {
+			pad := plainPadEvent(1)
+			pad.GetWorkflowTaskCompletedEventAttributes().Identity = strings.Repeat("worker-", 40)
+			b, _ := evSerializer.SerializeEvents([]*historypb.HistoryEvent{pad, {EventId: 2, EventType: enumspb.EVENT_TYPE_CHILD_WORKFLOW_EXECUTION_STARTED,
+				Attributes: &historypb.HistoryEvent_ChildWorkflowExecutionStartedEventAttributes{ChildWorkflowExecutionStartedEventAttributes: &historypb.ChildWorkflowExecutionStartedEventAttributes{Namespace: name}}}})
+			return b
+		}
+		nSeq := 12
+		if e.Thorough() {
+			nSeq = 200
+		}
+		for i := 0; i < nSeq; i++ {
+			name := []string{"remote-ok", "local-ok", "remote-bad", "local-bad"}[rng.IntN(4)]
+			blob := mkBlob(name)
+			var hist []string
+			for step := 0; step < 5+rng.IntN(4); step++ {
+				role := []string{"response", "request", "request-bypass"}[rng.IntN(3)]
+				hist = append(hist, role)
+				op := fmt.Sprintf("# same-blob %q roles=%s", name, strings.Join(hist, ","))
+				e.Emit(op, "#")
+				e.Evals++
+				e.Count("same_blob_" + role)
+				pp.Local.Reset()
+				if role == "response" {
+					pp.Local.Respond = func(m string, req proto.Message, md metadata.MD) (proto.Message, error) {
+						return &adminservice.GetWorkflowExecutionRawHistoryV2Response{HistoryBatches: []*commonpb.DataBlob{proto.Clone(blob).(*commonpb.DataBlob)}}, nil
+					}
+					_, _ = invoke(pp.FromRemote, rawHist, &adminservice.GetWorkflowExecutionRawHistoryV2Request{NamespaceId: "ns-id"}, nil)
+					pp.Local.Respond = nil
+					continue
+				}
+				var md metadata.MD
+				req := &adminservice.ImportWorkflowExecutionRequest{Namespace: name, HistoryBatches: []*commonpb.DataBlob{proto.Clone(blob).(*commonpb.DataBlob)}}
+				// what the check has to judge: every namespace-name field of the request as it stands after translation (unset
+				// ones count as the empty name, which is not on the list)
+				exp := proto.Clone(req)
+				if role == "request-bypass" {
+					md = metadata.Pairs(common.RequestTranslationHeaderName, "false")
+				} else {
+					refTranslate(exp.ProtoReflect(), refOpts{ns: map[string]string{"remote-ok": "local-ok", "remote-bad": "local-bad"}})
+				}
+				var expNames []string
+				listNsValues(exp.ProtoReflect(), &expNames)
+				after := "local-ok"
+				for _, n := range expNames {
+					if n != "local-ok" {
+						after = n
+					}
+				}
+				_, err := invoke(pp.FromRemote, importWf, req, md)
+				denied := status.Code(err) == codes.PermissionDenied
+				e.Count(fmt.Sprintf("same_blob_request_denied_%v", denied))
+				reached := ""
+				for _, c := range pp.Local.Calls() {
+					var got []string
+					listNsValues(c.Req.ProtoReflect(), &got)
+					for _, n := range got {
+						if n != "" && n != "local-ok" {
+							reached = n
+						}
+					}
+				}
+				switch {
+				case reached != "":
+					e.Violation(map[string]any{"what": fmt.Sprintf("the same history-blob bytes (naming %q) passed through the proxy as %s: the last request reached the local cluster naming %q, which is outside the allow-list [local-ok]", name, strings.Join(hist, ", "), reached), "ops": []string{op}})
+				case after != "local-ok" && !denied:
+					e.Violation(map[string]any{"what": fmt.Sprintf("the same history-blob bytes (naming %q) passed through the proxy as %s: the last request names %q after translation and was not refused (%v)", name, strings.Join(hist, ", "), after, err), "ops": []string{op}})
+				case after == "local-ok" && denied:
+					e.Violation(map[string]any{"what": fmt.Sprintf("the same history-blob bytes (naming %q) passed through the proxy as %s: the last request names only the allowed namespace after translation and was refused (%v)", name, strings.Join(hist, ", "), err), "ops": []string{op}})
+				}
+			}
+		}
+	}
 	pp.Stop()
 	e.Sample([]string{"aclpath p=|allowed-ns,also-ok /temporal.api.workflowservice.v1.WorkflowService/DescribeWorkflowExecution forbidden-ns r7 l7.0"})
 }
